@@ -6,10 +6,13 @@ from ..values import SymStr
 
 ID = 'C04'
 # fixed witnesses: private virtual functions behind gap placeholders, explicit table size, pointer arguments, return values
-ENGINE_B = {'template': 't_vft', 'kinds': ['dispatch_', 'layout_'], 'max_quick': 12, 'max_thorough': 64,
+ENGINE_B = [{'template': 't_vft', 'kinds': ['dispatch_', 'layout_'], 'max_quick': 12, 'max_thorough': 64,
             'fixed': [[8, 2, 0, 0, 0, 0, 1, 0, 0, 0, 0, 0, 0, 1, 1, 3, 1, 0, 0, 0, 0, 0, 0, 0],
                       [8, 3, 1, 7, 1, 1, 2, 1, 0, 0, 0, 1, 0, 0, 0, 0, 1, 1, 2, 0, 0, 0, 0, 1, 1, 5, 2, 0, 0, 0, 0, 1, 0, 0],
-                      [8, 2, 0, 0, 1, 2, 1, 1, 2, 0, 0, 1, 0, 0, 0, 0, 2, 1, 0, 0, 0, 0, 0, 0]]}
+                      [8, 2, 0, 0, 1, 2, 1, 1, 2, 0, 0, 1, 0, 0, 0, 0, 2, 1, 0, 0, 0, 0, 0, 0]]},
+            # one virtual function with 0..4 parameters of mixed width, incl. parameters named like the wrapper's own locals (`this`, `f`)
+            {'template': 't_vftargs', 'kinds': ['dispatch_'], 'max_quick': 8, 'max_thorough': 32,
+             'fixed': [[8, 1, 2, 2, 0, 0, 0, 1, 1, 3], [8, 2, 3, 0, 1, 3, 0, 2, 0, 0], [8, 1, 4, 1, 0, 0, 3, 3, 1, 1], [8, 1, 1, 0, 0, 0, 0, 2, 0, 0]]}]
 FN = ['g0', 'g1', 'g2', 'g3']
 EXPLANATION = ('Template t_vft (type T with a vftable block of m functions, each with an optional symbolic #[index], and an optional '
                'symbolic vftable #[size]) is executed symbolically through convert_grammar_functions_to_semantic_functions, '
@@ -52,8 +55,54 @@ def assume_attr_order(a, ps):
     return A
 
 
+def vftargs_assume(a, ps, tier):
+    kinds = (0, 3) if tier == 'quick' else (0, 1, 2, 3, 5)
+    A = [a[0] == ps, z3.UGE(a[1], 1), z3.ULE(a[1], 2), z3.ULE(a[2], 4), z3.ULE(a[7], 3), z3.ULE(a[8], 1), z3.ULT(a[9], 6 if tier != 'quick' else 3),
+         z3.Implies(a[8] == 0, a[9] == 0)]
+    for j in range(4):
+        A.append(z3.Or(*[a[3 + j] == k for k in kinds]))
+        A.append(z3.Implies(z3.ULE(a[2], j), a[3 + j] == 0))
+    A.append(z3.Implies(a[2] == 0, a[7] == 0))
+    return A
+
+
+def vftargs_queries(a, leaf, py):
+    from .c05 import ARGT
+    if not is_ok(py): return [Query('one-virtual-function-description-accepted', z3.BoolVal(True))]
+    its = items(py)
+    T = Item(its['m::T'])
+    if T.vftable is None: return [Query('virtual-function-keeps-slot-receiver-and-parameters', z3.BoolVal(True))]
+    bad = []
+    slot = z3.If(a[8] != 0, a[9], z3.BitVecVal(0, 64))
+    fns = T.vftable['functions']
+    bad.append(slot + 1 != len(fns))
+    for i, f in enumerate(fns):
+        if f.name == 'v':
+            bad.append(slot != i)
+            args = list(f.args)
+            recv = args[0] if args and isinstance(args[0], str) else None
+            rest = args[1:] if recv else args
+            bad.append(z3.And(a[1] == 1, z3.BoolVal(recv != '&self')))
+            bad.append(z3.And(a[1] == 2, z3.BoolVal(recv != '&mut self')))
+            bad.append(a[2] != len(rest))
+            for j, arg in enumerate(rest):
+                for kind in range(4):
+                    want = 'this' if (kind == 1 and j == 0) else 'f' if ((kind == 2 and j == 0) or (kind == 3 and j == len(rest) - 1)) else 'a%d' % j
+                    if arg[0] != want: bad.append(a[7] == kind)
+                for k, ty in ARGT.items():
+                    if arg[1] != ty: bad.append(a[3 + j] == k)
+            if f.ret != ['raw', 'u32'] or f.body[0] != 'vftable' or f.body[1] != 'v' or f.vis != 'pub': bad.append(z3.BoolVal(True))
+        else:
+            if f.name != '_vfunc_%d' % i or f.vis != 'priv': bad.append(z3.BoolVal(True))
+            bad.append(slot == i)
+    if not any(f.name == 'v' for f in fns): bad.append(z3.BoolVal(True))
+    return [Query('virtual-function-keeps-slot-receiver-and-parameters', z3.Or(*bad))]
+
+
 def slices(tier, rng):
     out = []
+    for ps in (4, 8):
+        out.append(Slice('args-ps%d' % ps, 't_vftargs', 10, lambda a, ps=ps, tier=tier: vftargs_assume(a, ps, tier), opts={'must_reach': ['ok']}, ctx={'m': 1}))
     for ps in (4, 8):
         out.append(Slice('m1-attr-order-ps%d' % ps, 't_vft', 14, lambda a, ps=ps: assume_attr_order(a, ps), opts={'must_reach': ['ok']}, ctx={'m': 1}))
     mmax = 2 if tier == 'quick' else 3
@@ -103,6 +152,7 @@ def check_table(fns, a, m, slots, length, bad):
 def leaf_queries(I, a, leaf, py, sl):
     m = sl.ctx['m']
     if leaf.kind != 'ret': return [Query('no-%s' % leaf.kind, z3.BoolVal(True))]
+    if sl.template == 't_vftargs': return vftargs_queries(a, leaf, py)
     slots, consistent, length = spec(a, m)
     if not is_ok(py): return [Query('rejected-implies-contradictory', consistent)]
     its = items(py)
@@ -135,12 +185,20 @@ def leaf_queries(I, a, leaf, py, sl):
 
 
 def region_env(a, sl):
+    if sl.template == 't_vftargs': return {'consistent': z3.BoolVal(True)}
     slots, consistent, length = spec(a, sl.ctx['m'])
     return {'consistent': consistent}
 
 
 def describe(template, args):
     a = [int(x) for x in args]
+    if template == 't_vftargs':
+        from .c05 import ARGS_TXT
+        n_ = min(a[2], 4); kind = a[7]
+        nm = lambda j: 'this' if (kind == 1 and j == 0) else 'f' if ((kind == 2 and j == 0) or (kind == 3 and j == n_ - 1)) else 'a%d' % j
+        ps_ = ['&mut self' if a[1] == 2 else '&self'] + ['%s: %s' % (nm(j), ARGS_TXT.get(a[3 + j], '?')) for j in range(n_)]
+        return '// pointer size %d\npub type T {\n    vftable { %spub fn v(%s) -> u32; },\n    pub x: *const u8,\n}' % (
+            a[0], '#[index(%d)] ' % a[9] if a[8] else '', ', '.join(ps_))
     def s64(v):
         v &= (1 << 64) - 1
         return v - (1 << 64) if v >> 63 else v
